@@ -60,6 +60,10 @@ def gen_program(rng, profile, index=None):
         prog['then_zip'] = [rng.randint(1, 3), rng.randint(1, 3)]      # later: two to_sync_iter iterations interleaved
     if direction == 'to_sync' and prog['explicit_loop'] and rng.random() < 0.5:
         prog['second_use'] = {'n': rng.randint(0, 3), 'fail': rng.random() < 0.3}   # a 2nd to_sync_iter on the SAME loop
+        if n and rng.random() < 0.35:
+            # the first iteration is abandoned (break + close) after k elements: what it got is a prefix, and the next
+            # complete iteration on the same loop is undisturbed
+            prog['abandon_after'] = rng.randint(0, n)
     if src == 'range':
         prog['elems'] = list(range(n))
     if src not in ('list', 'range'):
@@ -118,6 +122,7 @@ class IterWorld:
         self.blocked_in_source = False
         self.max_gap_while_waiting = 0.0
         self.phase2 = False
+        self.abandoned = False
 
     def viol(self, oracle, sig, detail, **features):
         self.violations.append({'property': 'C16', 'oracle': oracle, 'signature': sig, 'detail': detail,
@@ -240,8 +245,12 @@ class IterWorld:
                 self.given_loop = SimLoop()
                 kw['loop'] = self.given_loop
             it = self.aa.to_sync_iter(self.agen_source(), **kw)
+            ab = self.prog.get('abandon_after')
             try:
                 for x in it:
+                    if ab is not None and len(self.got) >= ab:
+                        self.abandoned = True
+                        break
                     self.got.append(x)
                     self.sch.log('got', repr(x))
                     if self.prog['consumer_delay']:
@@ -251,6 +260,15 @@ class IterWorld:
                 if isinstance(e, S.Abort):
                     raise
                 self.terminal = e
+            if self.abandoned:
+                try:
+                    it.close()          # may report the source's own failure; nothing else
+                except BaseException as e:  # noqa
+                    if isinstance(e, S.Abort):
+                        raise
+                    if e is not self.exc:
+                        self.viol('iter.close_error', 'closing an abandoned iteration raised something other than the source\'s failure',
+                                  repr(e))
             try:
                 next(it)
                 self.viol('iter.not_exhausted', 'iterator yields after its end', 'extra element after termination')
@@ -360,11 +378,15 @@ class IterWorld:
             return
         fail_at = p['fail_at']
         exp = self.values if fail_at is None else self.values[:fail_at]
+        if self.abandoned:
+            exp = exp[:p['abandon_after']]
         same = len(exp) == len(self.got) and all(type(a) is type(b) and a == b for a, b in zip(exp, self.got))
         if not same:
             self.viol('iter.sequence', 'consumed sequence differs from the source',
                       f'{p["dir"]} over {p["src"]}: expected {exp!r}, got {self.got!r} (fail_at={fail_at})', direction=p['dir'])
-        if fail_at is None:
+        if self.abandoned:
+            pass
+        elif fail_at is None:
             if self.terminal != 'stop':
                 self.viol('iter.spurious_error', 'iteration ended with an exception although the source did not fail',
                           f'{p["dir"]} over {p["src"]}: {self.terminal!r}', direction=p['dir'])
